@@ -300,6 +300,40 @@ theorem dispatch_unique (nested : Nat) (path : List Nat) (done : List Str) (st :
   refine ⟨l, h1, ?_⟩
   rcases h2 with rfl | ⟨c, rfl, _⟩ <;> simp
 
+theorem lookup_setDefault (d : List (Str × Str)) (k v : Str) : (setDefault d k v).lookup k = some v := by
+  induction d with
+  | nil => simp [setDefault, List.lookup]
+  | cons e d ih =>
+    obtain ⟨k', v'⟩ := e
+    by_cases h : k' = k
+    · subst h; simp [setDefault]
+    · have hb : (k == k') = false := by
+        cases hkk : (k == k') with
+        | false => rfl
+        | true => exact absurd (by simpa using hkk : k = k').symm h
+      rw [setDefault, if_neg h, List.lookup_cons, hb]
+      exact ih
+
+/-- **`defaultplugin <command> <plugin>` that reports success has made `<plugin>` the default**,
+whether or not a default (another one, the same one, an empty one) was registered before — it is
+`register` *and* `set` (a re-registration alone keeps the old value). -/
+theorem defaultplugin_sets (c : DispCfg) (command name : Str) (methods : List Str)
+    (h : (ownerDefaultPlugin c false command (some (name, methods))).2 = .ok) :
+    (ownerDefaultPlugin c false command (some (name, methods))).1.defaults.lookup command = some name := by
+  unfold ownerDefaultPlugin at h ⊢
+  simp only [Bool.false_eq_true, if_false] at h ⊢
+  cases hf : findCallbacks c [command] with
+  | error e => simp [hf] at h
+  | ok r =>
+    obtain ⟨maxL, cbs⟩ := r
+    cases cbs with
+    | nil => simp [hf] at h
+    | cons i rest =>
+      simp only [hf] at h ⊢
+      by_cases hc : isCmdOf c.disabled name methods command = true
+      · simp only [hc, if_true]; exact lookup_setDefault _ _ _
+      · simp [hc] at h
+
 /-! ### the small-step machine (`Machine.lean`): command bodies that use `irc` any number of times, threads -/
 
 /-- **On the machine, under every thread schedule and for every command body** (any number of
